@@ -68,6 +68,22 @@ where
     }
 }
 
+#[cfg(feature = "verif-hooks")]
+impl<D, E> BodyWriter<D, E>
+where
+    D: From<Vec<u8>> + Send + 'static,
+    E: Send + 'static,
+{
+    /// Bytes accepted by the chunk writer but not yet published to the body (`None` when dead).
+    pub fn verif_buffered(&self) -> Option<usize> {
+        match &self.0 {
+            Inner::Dead => None,
+            Inner::Raw(w) => Some(w.verif_buffered()),
+            Inner::Gzipped(g) => Some(g.get_ref().verif_buffered()),
+        }
+    }
+}
+
 impl<D, E> Write for BodyWriter<D, E>
 where
     D: From<Vec<u8>> + Send + 'static,
